@@ -412,7 +412,12 @@ class VM:
         elif f is None:
             if self.r[16] != sp0:
                 self.event("sp-mismatch", self.r[16], sp0, callee="for-list-body", convention="none")
-        return int(tgt)
+        t = int(tgt)
+        if t in self.entries:
+            # the call was the last instruction of its region: the return address is the entry of the function that
+            # follows, i.e. control flows sequentially from the caller's region into that function
+            self.event("fall-through", self.funcs[t].get("name"), "first" if t == self.first_entry else "other", frm=_where(self, t - 1), to="first-function" if t == self.first_entry else "later-function")
+        return t
 
     def _fname(self, line):
         f = self.funcs.get(line)
@@ -421,7 +426,8 @@ class VM:
     def _enter_check(self, t, call):
         """jump (not jal) landing exactly on a function entry: tail call if we are inside a call, else illegal entry."""
         if t in self.entries:
-            if self.shadow:
+            # frames of for-list bodies (left behind by `break`) are not calls of a function
+            if any(fr[2] in self.entries for fr in self.shadow):
                 self.stat["tail_calls"] += 1
             else:
                 self.event("jump-into-function", self.funcs[t].get("name"), frm=_where(self, self.pc), to="first-function" if t == self.first_entry else "later-function")
